@@ -193,7 +193,7 @@ class _AsymmetricErrorMixin:
         return self._func(
             y_true,
             y_pred,
-            asymmetric_threshold=self.asymmetric_treshold,
+            asymmetric_threshold=self.asymmetric_threshold,
             left_error_function=self.left_error_function,
             right_error_function=self.right_error_function,
         )
